@@ -177,10 +177,20 @@ def _bind(helper, call, is_method: bool, is_static: bool):
         return None
     # parameters that are rebound in the helper, or whose argument is not a plain reference, are bound by an assignment first
     stored = {n.id for n in ast.walk(helper) if isinstance(n, ast.Name) and isinstance(n.ctx, (ast.Store, ast.Del))}
+    nloads: dict = {}
+    for n in ast.walk(helper):
+        if isinstance(n, ast.Name) and isinstance(n.ctx, ast.Load):
+            nloads[n.id] = nloads.get(n.id, 0) + 1
+    body = _body_wo_doc(helper)
+    single_expr = len(body) == 1 and isinstance(body[0], ast.Return)
     prelude = []
     for p, v in list(mp.items()):
         if isinstance(v, ast.Name) and v.id == p:
             del mp[p]
+            continue
+        # an argument with effects may take the place of its parameter when the helper is one expression that reads the parameter once
+        # (the only other things evaluated in that expression before it are reads of the remaining -- effect-free -- arguments)
+        if single_expr and p not in stored and nloads.get(p, 0) == 1 and not _simple_ref(v) and all(_simple_ref(o) for q, o in mp.items() if q != p):
             continue
         if p in stored or not _simple_ref(v):
             prelude.append(ast.Assign(targets=[ast.Name(id=p, ctx=ast.Store())], value=copy.deepcopy(v), lineno=call.lineno))
